@@ -401,3 +401,8 @@ func resSet(s *Schema) []int64 {
 	}
 	return out
 }
+
+// FieldsCollide reports whether a field list falls into the listed finding
+// same-expr-text-fields (two fields with the same expression text, or AVG(x)
+// next to WAVG(x, w)).
+func FieldsCollide(fields []FieldDef) bool { return avgCollision(fields) }
